@@ -160,4 +160,35 @@ example : obs (swap 64 1000000000 mZ ⟨true, 1000, ⟨⟨120, 120⟩, ⟨119, 1
 example : obs (swap 64 1000000000 m0 ⟨false, 100000000, pr0⟩)
     = [3040, 1000, 50, 99951050, 0, 0, 2900049950, 1099981550, 0, 18500] := by decide +kernel
 
+/-! ### Audit additions -/
+
+/-- with a non-positive impact the charge is strictly below the amount after fees, so the truncated
+subtraction `c.afterFees - c.impactAmount` in `swap_negative_impact_no_bonus` is a true difference
+(it is the non-zero amount credited to the pool). -/
+theorem swap_negative_charge_lt {W U : Nat} {m m' : Market} {q : SwapParams} {c : SwapCalc}
+    (h : swap W U m q = .ok (m', c)) (hp : ¬ c.impactValue > 0) :
+    c.impactAmount < c.afterFees ∧ c.tokenIn + c.impactAmount = c.afterFees ∧ c.tokenIn ≠ 0 := by
+  obtain ⟨_, _, hc, _, _⟩ := swap_ok h
+  obtain ⟨_, _, _, hneg⟩ := swapCalc_spec hc
+  have n := hneg hp
+  have h1 := n.tokenIn
+  have h2 := n.tokenIn_pos
+  exact ⟨by omega, h1, h2⟩
+
+example : 3 * 2 ≤ 7 * 1 ∧ 3 = 7 * 1 / 2 ∧ 2 ≠ 0 := poolOut_floor (W := 64) (by decide : mulDiv 64 7 1 2 = some 3)
+example : (1000 : Nat) = 1000 ∧ (0 : Nat) = 0 ∧ (0 : Nat) = 0 :=
+  applyFees_zero (W := 64) (U := 10 ^ 9) (p := ⟨0, 0, 370000000, 0⟩) (bc := .worsened) (a := 1000) (f := ⟨0, 0⟩)
+    (by decide) (by decide)
+/-- NEGATIVE impact with fees and a real min<max spread (long 3/5, short 2/4): `swap_negative_impact_no_bonus`,
+`swap_negative_charge_lt`; `74 917 419 · 4 ≤ 100 000 000 · 3`. -/
+example : obs (swap 64 1000000000 m0 ⟨true, 100000000, ⟨⟨1, 1⟩, ⟨3, 5⟩, ⟨2, 4⟩⟩⟩)
+    = [-120320, 40107, 0, 74917419, 41107, 50, 3099933993, 925082581, 25900, 0] := by decide +kernel
+example : (match swap 64 1000000000 m0 ⟨true, 100000000, ⟨⟨1, 1⟩, ⟨3, 5⟩, ⟨2, 4⟩⟩⟩ with
+    | .ok (_, c) => decide (¬ c.impactValue > 0 ∧ c.impactAmount < c.afterFees ∧ c.impactAmount ≠ 0)
+    | .error _ => false) = true := by decide +kernel
+/-- POSITIVE impact with the same spread, both impact pools paying: `swap_impact_funded`
+(`1 000 · 5 + 50 · 4 ≤ 41 760`) and `swap_value_bound`. -/
+example : obs (swap 64 1000000000 m0 ⟨false, 100000000, ⟨⟨1, 1⟩, ⟨3, 5⟩, ⟨2, 4⟩⟩⟩)
+    = [41760, 1000, 50, 39981020, 0, 0, 2960019980, 1099981550, 0, 18500] := by decide +kernel
+
 end Gmx.C05
